@@ -146,6 +146,33 @@ Theorem C09_unshared_cross_node_refuted :
 Proof. exact ex_unshared_cross_node. Qed.
 Print Assumptions C09_unshared_cross_node_refuted.
 
+(* Atomicity.  Every statement above takes one RoutingTable call as one atomic step.  LookupWaitingTunnel is Get, then
+   (if the record is expired) Delete.  With the repaired code (c_del_expired = false) a lookup writes nothing, so no
+   interleaving of its storage calls with other nodes' calls can make it destroy a registration: *)
+Theorem C09_repaired_lookup_is_read_only :
+  forall gstr enc dec decm of_addr to_addr keep c s n t,
+  c_del_expired c = false -> fst (step gstr enc dec decm of_addr to_addr keep c s (OLookup n t)) = s.
+Proof. exact lookup_read_only. Qed.
+Print Assumptions C09_repaired_lookup_is_read_only.
+
+(* ... whereas on the tree as found (c_del_expired = true) the split execution loses a fresh registration: node 1 reads
+   the expired first registration, node 0 registers the id again, node 1's Delete removes the fresh record - it does not
+   resolve although both atomic orders of the same two calls leave it routable.  Reproduced on the real code by the
+   harness (known finding expired-lookup-deletes-fresh-registration; fixes/C09-lookup-does-not-delete.diff). *)
+Theorem C09_found_split_lookup_refuted :
+  let c := race_cfg true in
+  let s0 := ex_final c (fst (ex_step c (init ex_gstr) (ORegister 0 ex_rec))) [OTick 30000000001 0] in
+  snd (ex_step c s0 (OLookup 1 (w_tunnel ex_rec))) = RExpired
+  /\ let s1 := fst (ex_step c s0 (ORegister 0 ex_rec)) in
+     ex_lookup c s1 1 (w_tunnel ex_rec) = ROk (stamp ex_rec 30000000001 60000000001)
+     /\ ex_lookup c (st_del ex_gstr s1 race_cell) 1 (w_tunnel ex_rec) = RNotFound
+  /\ ex_lookup c (ex_final c s0 [OLookup 1 (w_tunnel ex_rec); ORegister 0 ex_rec]) 1 (w_tunnel ex_rec)
+     = ROk (stamp ex_rec 30000000001 60000000001)
+  /\ ex_lookup c (ex_final c s0 [ORegister 0 ex_rec; OLookup 1 (w_tunnel ex_rec)]) 1 (w_tunnel ex_rec)
+     = ROk (stamp ex_rec 30000000001 60000000001).
+Proof. exact ex_split_lookup_loses_fresh_registration. Qed.
+Print Assumptions C09_found_split_lookup_refuted.
+
 (* non-vacuity: a concrete codec satisfies the codec hypothesis, and a concrete non-trivial history of the
    clustered deployment (other ids, node addresses, both clocks ticking) meets the hypotheses of (1)/(2): the record
    registered on node 0 resolves on node 1 with all ten fields up to the last nanosecond of its waiting period,
@@ -160,6 +187,8 @@ Theorem C09_premises_satisfiable :
   /\ ex_lookup c s2 1 (w_tunnel ex_rec) = ROk (stamp ex_rec 0 30000000000)
   /\ ex_lookup c (ex_final c s2 [OTick 1000 0]) 1 (w_tunnel ex_rec) = ROk (stamp ex_rec 0 30000000000)
   /\ ex_lookup c (ex_final c s2 [OTick 1001 0]) 1 (w_tunnel ex_rec) = RExpired
+  /\ ex_lookup c (ex_final c s2 [OTick 1001 0; OLookup 2 (w_tunnel ex_rec)]) 1 (w_tunnel ex_rec)
+     = (if LookupDeletesExpired then RNotFound else RExpired)
   /\ ex_lookup c (ex_final c s2 [OTick 0 1101]) 1 (w_tunnel ex_rec) = RNotFound
   /\ ex_lookup c (ex_final c s2 [ORemove 2 (w_tunnel ex_rec)]) 1 (w_tunnel ex_rec) = RNotFound
   /\ snd (ex_step c s2 (OGetAddr 1 [110;111;100;101;45;48])) = RAddr [49;48;46;48;46;48;46;49].
